@@ -873,6 +873,7 @@ pub fn run(p: &Params, sum: &mut Summary) {
         None => Box::new(0..p.iters),
     };
     let mut total_ops = 0u64;
+    let mut acc = crate::common::Acc::default();
     for index in range {
         let mut rng = Rng::new(mix(p.seed ^ 0xC09C_09C0, index));
         let len = if p.miri {
@@ -926,15 +927,14 @@ pub fn run(p: &Params, sum: &mut Summary) {
                     ("loss.not_declared_although_threshold_met", s.loss_not_declared),
                     ("loss_time_threshold_checks", s.thr_checks),
                 ] {
-                    sum.count(k, v);
+                    acc.count("", k, v);
                 }
                 if s.min_time_margin_ns != i64::MAX {
-                    sum.min("loss.min_time_margin_ns", s.min_time_margin_ns);
+                    acc.min("", "loss.min_time_margin_ns", s.min_time_margin_ns);
                 }
-                sum.max("pto.max_shortfall_vs_exact_ns", s.max_pto_shortfall_ns);
-                sum.max("pto.max_backoff", s.max_backoff as i64);
-                sum.max(
-                    "persistent_congestion_threshold.max_shortfall_ms(observed_only)",
+                acc.max("", "pto.max_shortfall_vs_exact_ns", s.max_pto_shortfall_ns);
+                acc.max("", "pto.max_backoff", s.max_backoff as i64);
+                acc.max("", "persistent_congestion_threshold.max_shortfall_ms(observed_only)",
                     s.max_pc_threshold_shortfall_ms,
                 );
                 let nontrivial = s.samples >= 2 && (s.loss_checks > 0 || s.pto_chains > 0);
@@ -959,6 +959,7 @@ pub fn run(p: &Params, sum: &mut Summary) {
             }
         }
     }
+    acc.flush(sum);
     sum.count("operations", total_ops);
     if total_ops == 0 && p.only.is_none() && sum.violations.is_empty() {
         sum.inconclusive.push("rtt: no operation was run".into());
